@@ -109,3 +109,10 @@ package api
 //@ func (api *PcApi) HandleLogsStream
 //@   requires !held(api.wsMtx)
 //@   loop 1 invariant !held(api.wsMtx) && idx >= -1
+
+// C18: the per-line handler of a websocket follower hands EVERY line to the stream's writer (a blocking send: the
+// follower exerts back-pressure, it does not lose lines) unless the stream has been closed.
+//@ func (api *PcApi) HandleLogsStream$2
+//@   requires !held(chanCloseMtx)
+//@   ensures queued-unless-closed: !old(isChannelClosed) ==> sends() == old(sends()) + 1 && result0 == len(message)
+//@   ensures nothing-after-close: old(isChannelClosed) ==> sends() == old(sends()) && result0 == 0
